@@ -28,14 +28,16 @@ CONSTANTS Buckets,     \* set of bucket identifiers (strings)
           Styles,      \* the ways a caller can write an object (see WriteStyles)
           EmptyData,   \* the data identifier that stands for the empty byte string
           CopyOn,      \* whether behaviours contain Copy operations
-          CopyMiss     \* names tried as ABSENT copy sources (stored objects are always tried)
+          CopyMiss,    \* names tried as ABSENT copy sources (stored objects are always tried)
+          Handles      \* bucket handles an operation can go through (see `h` below)
 
 VARIABLES objs,        \* [Buckets -> [some subset of Names -> Datas]]
           res,         \* result of the last operation
           last,        \* the last operation (for replay)
-          hist         \* sequence of the writes done so far
+          hist,        \* sequence of the writes done so far
+          via          \* the handle the last operation went through
 
-vars == <<objs, res, last, hist>>
+vars == <<objs, res, last, hist, via>>
 
 (* ---- names as strings --------------------------------------------------- *)
 RECURSIVE Join(_)
@@ -131,6 +133,7 @@ Init == /\ objs = [b \in Buckets |-> <<>>]
         /\ res = Res("init", TRUE, "", {})
         /\ last = Op("init", "", <<>>, "", <<>>, "")
         /\ hist = <<>>
+        /\ via = 1
 
 Write(b, n, d, s) == /\ Usable(b, n)
                      /\ StyleOK(s, d)
@@ -138,14 +141,17 @@ Write(b, n, d, s) == /\ Usable(b, n)
                      /\ res' = Res("write", TRUE, "", {})
                      /\ last' = Op("write", b, n, d, <<>>, s)
                      /\ hist' = Append(hist, [b |-> b, name |-> n, data |-> d])
+                     /\ via' \in Handles
 
 Read(b, n) == /\ Usable(b, n)
               /\ res' = Res("read", ReadResult(objs, b, n).ok, ReadResult(objs, b, n).data, {})
               /\ last' = Op("read", b, n, "", <<>>, "")
+              /\ via' \in Handles
               /\ UNCHANGED <<objs, hist>>
 
 List(b, p) == /\ res' = Res("list", TRUE, "", ListResult(objs, b, p))
               /\ last' = Op("list", b, <<>>, "", p, "")
+              /\ via' \in Handles
               /\ UNCHANGED <<objs, hist>>
 
 (* copy within one bucket or across two; never an object onto itself *)
@@ -157,13 +163,21 @@ Copy(b, n, sb, sn) ==
     /\ res' = Res("copy", CopyOK(objs, sb, sn), "", {})
     /\ last' = OpCopy(b, n, IF CopyOK(objs, sb, sn) THEN objs[sb][sn] ELSE "", sb, sn)
     /\ hist' = IF CopyOK(objs, sb, sn) THEN Append(hist, [b |-> b, name |-> n, data |-> objs[sb][sn]]) ELSE hist
+    /\ via' \in Handles
 (* sources explored: every stored object, and the names of CopyMiss (absent or not) *)
 Copies == \E b \in Buckets, n \in Names, sb \in Buckets : \E sn \in Stored(sb) \cup CopyMiss : Copy(b, n, sb, sn)
 
-Next == \/ \E b \in Buckets, n \in Names, d \in Datas, s \in Styles : Write(b, n, d, s)
+Step == \/ \E b \in Buckets, n \in Names, d \in Datas, s \in Styles : Write(b, n, d, s)
         \/ \E b \in Buckets, n \in Names : Read(b, n)
         \/ \E b \in Buckets, p \in Prefixes : List(b, p)
         \/ Copies
+(* via: which handle of the bucket(s) the caller uses.  Several handles can  *)
+(* be open on one bucket (the upload server and the worker each open their   *)
+(* own; a restarted process opens a new one): a bucket is its directory, not *)
+(* the handle, so nothing but `via` itself depends on the choice.            *)
+(* (the choice `via' \in Handles` is made inside every action, so that Next   *)
+(* stays a disjunction of small actions)                                     *)
+Next == Step
 
 Spec == Init /\ [][Next]_vars
 
